@@ -139,8 +139,97 @@ func semanticEdit(t *rapid.T, prog *mrogen.Program) (string, int) {
 		}
 	}
 	kind := rapid.SampledFrom([]string{"literal", "literal", "alias", "rename-stage-input", "retype-stage-input", "add-stage-input",
-		"toggle-split", "drop-disabled", "add-disabled", "repoint-disabled", "swap-bindings", "swap-returns", "top-literal", "rename-stage-output-unused", "repoint-wildcard", "repoint-wildcard"}).Draw(t, "edit")
+		"toggle-split", "drop-disabled", "add-disabled", "repoint-disabled", "swap-bindings", "swap-returns", "top-literal", "rename-stage-output-unused", "repoint-wildcard", "repoint-wildcard", "repoint-member", "repoint-member"}).Draw(t, "edit")
 	switch kind {
+	case "repoint-member":
+		// self.cfg.alpha becomes self.cfg.beta (a sibling member of the
+		// same type), likewise CALL.out.alpha: the same source, another part
+		// of it - in a call binding or in a return binding
+		type slot struct {
+			e *mrogen.Expr
+			d int
+			t mrogen.Ty // type of the source the path starts from
+		}
+		var slots []slot
+		srcType := func(pl *mrogen.Pipeline, r mrogen.Ref) (mrogen.Ty, bool) {
+			if r.Call == "" {
+				if in := mrogen.FindParam(pl.Ins, r.Out); in != nil {
+					return in.T, true
+				}
+				return mrogen.Ty{}, false
+			}
+			for _, c := range pl.Calls {
+				if c.Id == r.Call && !c.Mapped {
+					_, outs, _ := prog.Callable(c.Callee)
+					if o := mrogen.FindParam(outs, r.Out); o != nil {
+						return o.T, true
+					}
+				}
+			}
+			return mrogen.Ty{}, false
+		}
+		for _, pl := range pls {
+			add := func(e *mrogen.Expr, d int) {
+				if r, ok := (*e).(mrogen.Ref); ok && len(r.Path) > 0 && r.Out != "" {
+					if st, ok := srcType(pl, r); ok {
+						slots = append(slots, slot{e, d, st})
+					}
+				}
+			}
+			for _, c := range pl.Calls {
+				if c.WildcardFrom != nil || c.WildcardSelf {
+					continue
+				}
+				for i := range c.Bindings {
+					add(&c.Bindings[i].E, reach[pl.Name]+1)
+				}
+			}
+			for i := range pl.Ret {
+				add(&pl.Ret[i].E, reach[pl.Name])
+			}
+		}
+		for _, k := range rapid.Permutation(slots).Draw(t, "memberSlots") {
+			r := (*k.e).(mrogen.Ref)
+			cur := k.t
+			ok := true
+			var last *mrogen.Struct
+			var lastField mrogen.Field
+			for _, m := range r.Path {
+				st := prog.U.Struct(cur.Base)
+				if st == nil {
+					ok = false
+					break
+				}
+				found := false
+				for _, f := range st.Fields {
+					if f.Name == m {
+						last, lastField, cur, found = st, f, f.T, true
+					}
+				}
+				if !found {
+					ok = false
+					break
+				}
+			}
+			if !ok || last == nil {
+				continue
+			}
+			var sib []string
+			for _, f := range last.Fields {
+				if f.Name != lastField.Name && f.T == lastField.T {
+					sib = append(sib, f.Name)
+				}
+			}
+			if len(sib) == 0 {
+				continue
+			}
+			np := append([]string{}, r.Path...)
+			np[len(np)-1] = sib[rapid.IntRange(0, len(sib)-1).Draw(t, "sibling")]
+			r.Path = np
+			*k.e = r
+			return kind, k.d
+		}
+		return "", 0
 	case "repoint-wildcard":
 		// "* = self.w1" becomes "* = self.w2" (another input of the same
 		// struct type): every argument of the call now comes from elsewhere
